@@ -132,10 +132,13 @@ def bp_records(rnd, thorough):
     for form, nv, nplanes in (('bp8', 8, 3), ('bp4', 4, 2)):
         fns = dict(not_=getattr(logic, form[:2] + form[2] + 'v_not'), and_=getattr(logic, form[:2] + form[2] + 'v_and'),
                    or_=getattr(logic, form[:2] + form[2] + 'v_or'), xor=getattr(logic, form[:2] + form[2] + 'v_xor'))
-        for k in (1, 2, 3, 4):
-            tuples = np.array(list(itertools.product(range(nv), repeat=k)), dtype=np.uint8)    # (T, k)
+        # whole value set, then arrays confined to a subset of the values (no unknown anywhere in the array, two-valued
+        # data only, transitions only, unknowns only): the result of a lane must not depend on what other lanes hold
+        doms = [list(range(nv))] + ([[0, 3, 4, 5, 6, 7], [0, 3], [0, 3, 5, 6], [4, 5, 6, 7], [1, 2]] if nv == 8 else [[0, 3], [1, 2], [0, 1, 3]])
+        for dom, k in itertools.product(doms, (1, 2, 3, 4)):
+            tuples = np.array(list(itertools.product(dom, repeat=k)), dtype=np.uint8)    # (T, k)
             T = len(tuples)
-            for off in range(8):
+            for off in (range(8) if len(dom) == nv else (0, 3)):
                 order = np.roll(np.arange(T), off)                  # tuple i sits at lane (i + off) mod 8 of its byte
                 if off:
                     order = np.concatenate([order, order[:(-T) % 8 or 0]])
@@ -168,7 +171,7 @@ def bp_records(rnd, thorough):
                         except Exception as e:
                             rec.update(raised=True, res=[], arr=[], err=repr(e)[:200])
                         recs.append(rec)
-                if not thorough and k == 4 and off >= 2:
+                if not thorough and k == 4 and off >= 2 and len(dom) == nv:
                     break
         # the same array object on several operands
         for k in (2, 3, 4):
